@@ -12,6 +12,19 @@ open CnvVerif CnvVerif.Export
     quantifying over `t : ℚ` covers every float input.  `first` is the chromosome of the table's
     first row, which fixes the naming style ("chrX" / "X"). -/
 
+/-! ### the literals read from the source are the ones the property names -/
+
+/-- POS: a start of 0 is replaced by 1; a loss is DEL, a gain DUP; a loss's length is multiplied by −1 -/
+theorem vcf_literals :
+    Generated.VCF_POS_REPLACE_FROM = 0 ∧ Generated.VCF_POS_REPLACE_TO = 1 ∧
+    Generated.VCF_SVTYPE_LOSS = "DEL" ∧ Generated.VCF_SVTYPE_GAIN = "DUP" ∧
+    Generated.VCF_SVLEN_LOSS_FACTOR = -1 ∧
+    Generated.VCF_FORMAT_GAIN = ["GT", "GQ", "CN", "CNQ"] ∧ Generated.VCF_FORMAT_LOSS = ["GT", "GQ"] :=
+  ⟨rfl, rfl, rfl, rfl, rfl, rfl, rfl⟩
+
+/-- SEG starts and range labels are 1-based: the writers add 1 to the 0-based start -/
+theorem one_based_shifts : Generated.SEG_START_SHIFT = 1 ∧ Generated.LABEL_START_SHIFT = 1 := ⟨rfl, rfl⟩
+
 /-! ### the copy number and the expected copy number of a segment -/
 
 /-- the copy number expected for a segment's chromosome and the sample's sex, as `call.absolute_expect`
